@@ -1,6 +1,7 @@
 import DepLogic.Proofs.MarkerEngineStep
 import DepLogic.Properties.C19
 import DepLogic.Proofs.SpecTheorems
+import DepLogic.Proofs.CutMap
 /-
   The single-marker layer: which atoms are "good" in an environment, and that `&`/`|` between
   good single markers is sound (`SingleSound`).  String variables: proved outright from C19.
@@ -39,8 +40,14 @@ def _root_.DepLogic.Atom.WF (a : Atom) : Prop := getSpecifier a.name a.op a.valu
 /-- the atom evaluates as its specifier view says -/
 def _root_.DepLogic.Atom.Coherent (env : Env) (a : Atom) : Prop := sem env (.expr a) = holds env a.name a.spec
 
+/-- a version that is not a post-release -/
+def NoPost (v : Ver) : Prop := v.post = none
+
+/-- canonical, and no bound is a post-release.  (With a post-release upper bound the `~=` rendering
+    of `RangeSpecifier._simplified_form` drops the suffix — known finding D4a — and `from_specifier`
+    would then build an atom that means something else; see C06.NoD4a.) -/
 def _root_.DepLogic.ASpec.Canon : ASpec → Prop
-  | .ver s => Spec.Canon s
+  | .ver s => Spec.Canon s ∧ Spec.BoundsIn NoPost s
   | .gen _ => True
 
 /-- atoms of the well-defined classes, in an environment where they behave -/
@@ -226,7 +233,7 @@ theorem aspecOr_holds (env : Env) (he : EnvTotal env) (n : String) (s1 s2 r : AS
       rw [ht] at ht'; cases ht'
       rw [holds_ofGRes env n t ht, ha, hb]
       refine ⟨C19.or_exact' a b gr hgr t, ?_⟩
-      cases gr <;> simp [ASpec.ofGRes, ASpec.Canon, Spec.Canon]
+      cases gr <;> simp [ASpec.ofGRes, ASpec.Canon, Spec.Canon, Spec.boundsIn_empty, Spec.boundsIn_any]
     | ver b => simp [aspecOr] at h
   | ver a =>
     cases s2 with
@@ -234,22 +241,22 @@ theorem aspecOr_holds (env : Env) (he : EnvTotal env) (n : String) (s1 s2 r : AS
     | ver b =>
       simp only [aspecOr, Option.map_eq_some_iff] at h
       obtain ⟨s, hs, rfl⟩ := h
-      obtain ⟨s', hs', hc, hm⟩ := Spec.or_spec a b c1 c2
+      obtain ⟨s', hs', hc, hm⟩ := Spec.or_spec a b c1.1 c2.1
       rw [hs] at hs'; cases hs'
       have hv := he.ver n k1
       cases hev : envVer env n with
       | none => simp [hev] at hv
       | some v =>
-        refine ⟨?_, hc⟩
+        refine ⟨?_, hc, Spec.or_boundsIn NoPost a b s c1.2 c2.2 hs⟩
         simp only [holds_ver, hev]
         rw [Bool.eq_iff_iff]
         simp [hm]
 
 theorem aspecAnd_canon (s1 s2 r : ASpec) (c1 : s1.Canon) (c2 : s2.Canon) (h : aspecAnd s1 s2 = some r) : r.Canon := by
   cases s1 <;> cases s2 <;> simp [aspecAnd] at h
-  · subst h; exact Spec.and_canon _ _ c1 c2
+  · subst h; exact ⟨Spec.and_canon _ _ c1.1 c2.1, Spec.and_boundsIn NoPost _ _ c1.2 c2.2⟩
   · obtain ⟨gr, _, rfl⟩ := h
-    cases gr <;> simp [ASpec.ofGRes, ASpec.Canon, Spec.Canon]
+    cases gr <;> simp [ASpec.ofGRes, ASpec.Canon, Spec.Canon, Spec.boundsIn_empty, Spec.boundsIn_any]
 
 theorem ASpec.beq_holds (env : Env) (he : EnvTotal env) (n : String) (r s : ASpec) (k : SameKind n s)
     (h : r.beq s = true) : holds env n r = holds env n s := by
@@ -272,9 +279,10 @@ theorem ASpec.beq_holds (env : Env) (he : EnvTotal env) (n : String) (r s : ASpe
 
 /-! ### `_merge_single_markers` -/
 
-/-- C11 (second half): `from_specifier` turns a canonical version specifier into a marker that means it -/
+/-- C11 (second half): `from_specifier` turns a canonical version specifier without post-release
+    bounds into a marker that means it -/
 def FromSpecOk (env : Env) : Prop :=
-  ∀ name s m, versionLikeNames.contains name = true → Spec.Canon s →
+  ∀ name s m, versionLikeNames.contains name = true → ASpec.Canon (.ver s) →
     fromSpecifier name (.ver s) = some m → GAll (Good env) m ∧ sem env m = holds env name (.ver s)
 
 /-- the python_version / python_full_version merge -/
@@ -629,7 +637,7 @@ theorem mergeSingle_ok (env : Env) (he : EnvTotal env) (hF : FromSpecOk env) (hP
                   | true => simp [aspecAnd] at hr
                   | false =>
                     rw [hsa] at na; rw [hsb] at nb
-                    obtain ⟨r', hr', _⟩ := Spec.or_spec sa' sb' na nb
+                    obtain ⟨r', hr', _⟩ := Spec.or_spec sa' sb' na.1 nb.1
                     simp [aspecOr, hr'] at hr
               have hsn : StrName a.name := by
                 have := ha.2
